@@ -48,6 +48,8 @@ Xs == <<
 >>
 AllAtoms == {Known[i] : i \in 1..Len(Known)} \cup {Xs[i] : i \in 1..Len(Xs)}
 XSet == {Xs[i] : i \in 1..Len(Xs)}
+\* atoms that can error or fail to be a boolean under some completion
+XE == {Xs[i] : i \in {2, 3, 4, 7, 11, 12, 18, 20, 21, 22, 27, 28}}
 KSet == {Known[i] : i \in 1..Len(Known)}
 
 \* ---- unknown modes: partial request / store and the completion domains
@@ -90,6 +92,7 @@ Coords == {<<"single", m>> : m \in 1..Len(Modes)} \cup {<<"and", m, i>> : m \in 
           \cup {<<"or", m, i>> : m \in 1..Len(Modes), i \in 1..Len(Xs)}
           \cup {<<"pair", m, i>> : m \in 1..Len(Modes), i \in 1..Len(Xs)}
           \cup {<<"scope", m>> : m \in 1..Len(Modes)}
+          \cup {<<"ifeq", m>> : m \in 1..Len(Modes)}
 
 CasesOf(k) ==
   LET m == k[2] IN
@@ -104,6 +107,17 @@ CasesOf(k) ==
     [] k[1] = "scope" -> {[mode |-> m, pols |-> <<PScope("p1", e1, pc, rc), P1("p2", "forbid", y)>>]
                           : e1 \in {"permit"}, pc \in {<<"eq", Ua>>, <<"in", Gg>>, <<"is", "User">>, <<"isin", "User", Gg>>},
                             rc \in {AnyS, <<"eq", Dd>>, <<"is", "Doc">>}, y \in {Lit(FalseV), Xs[1], Xs[5], TypeErrE}}
+
+    \* an if whose branches agree concretely while the guard mentions an unknown (and may error, or not be a boolean,
+    \* once it is substituted): the guard must survive.  Always replayed (keep).
+    [] k[1] = "ifeq" -> {[mode |-> m, keep |-> TRUE, pols |-> <<P1("p1", "permit", w)>>]
+                         : w \in UNION {{<<"if", x, br[1], br[2]>>, <<"not", <<"if", x, br[1], br[2]>>>>}
+                                        : x \in XE,
+                                          br \in {<<Lit(TrueV), Lit(TrueV)>>, <<Lit(FalseV), Lit(FalseV)>>,
+                                                   <<Bin("less", Lit(L(1)), Lit(L(3))), Bin("eq", Get(Lit(Ub), "zz"), Get(Lit(Ub), "zz"))>>}}
+                            \cup {Bin("eq", <<"if", x, Lit(L(1)), Lit(L(1))>>, Lit(L(1))) : x \in XE}
+                            \cup {Bin("eq", <<"if", x, Lit(Ua), Lit(Ua)>>, PV) : x \in XE}}
+                        \cup {[mode |-> m, keep |-> TRUE, pols |-> <<P1("p1", "permit", Lit(TrueV)), P1("p2", "forbid", <<"if", x, Lit(FalseV), Lit(FalseV)>>)>>] : x \in XE}
 
 Init == coord \in Coords /\ c = <<>>
 Next == c = <<>> /\ c' \in CasesOf(coord) /\ UNCHANGED coord
